@@ -94,4 +94,58 @@ def trace {σ ε ρ S : Type} (auth : σ → S → Out ε ρ × S) : List σ →
   | [], _ => []
   | x :: xs, s => (x, (auth x s).1) :: trace auth xs (auth x s).2
 
+/-! ### several calls on one strategy object: the `AuthResult` objects live in a heap
+
+`authenticate` is modelled once more with *object identity*: every `AuthResult(strategy=self)` is a fresh heap cell
+(index = identity), `overall_result.append(…)` mutates that cell, and the call hands out the cell's identity.
+`Obj` is everything a call can see and change: the heap of all `AuthResult`s allocated so far (those handed out by
+earlier calls included) and the world state `S` of the sources.  A call that reused a cell of an earlier call would be
+visible as a change of that earlier cell. -/
+
+structure Obj (σ ε ρ S : Type) where
+  heap : List (List (σ × Out ε ρ))
+  st : S
+
+/-- `cell.append(x)` on the object with identity `id` -/
+def appendCell {α : Type} : List (List α) → Nat → α → List (List α)
+  | [], _, _ => []
+  | c :: cs, 0, x => (c ++ [x]) :: cs
+  | c :: cs, n + 1, x => c :: appendCell cs n x
+
+/-- the `for` loop of `authenticate`, appending to the heap object `id` -/
+def heapLoop {σ ε ρ S : Type} (auth : σ → S → Out ε ρ × S) (id : Nat) :
+    List σ → Obj σ ε ρ S → Obj σ ε ρ S × Bool
+  | [], o => (o, false)
+  | x :: xs, o =>
+    let r := auth x o.st
+    let o' : Obj σ ε ρ S := { heap := appendCell o.heap id (x, r.1), st := r.2 }
+    if r.1.isOk then (o', true) else heapLoop auth id xs o'
+
+/-- one `strategy.authenticate(transport)` call: allocates its own result object, fills it, and returns
+(identity of the result object, `true` = returned / `false` = raised `AuthFailure` carrying it) -/
+def authCall {σ ε ρ S : Type} (auth : σ → S → Out ε ρ × S) (srcs : List σ) (o : Obj σ ε ρ S) :
+    Obj σ ε ρ S × Nat × Bool :=
+  let id := o.heap.length
+  let r := heapLoop auth id srcs { o with heap := o.heap ++ [[]] }
+  (r.1, id, r.2)
+
+/-- a history of calls on the same strategy object (each with the source list `get_sources()` yields then) -/
+def session {σ ε ρ S : Type} (auth : σ → S → Out ε ρ × S) :
+    List (List σ) → Obj σ ε ρ S → Obj σ ε ρ S × List (Nat × Bool)
+  | [], o => (o, [])
+  | srcs :: rest, o =>
+    let r := authCall auth srcs o
+    let r' := session auth rest r.1
+    (r'.1, r.2 :: r'.2)
+
+/-- the world state after a one-shot call (sources run until the first success) -/
+def stAfter {σ ε ρ S : Type} (auth : σ → S → Out ε ρ × S) : List σ → S → S
+  | [], s => s
+  | x :: xs, s => if (auth x s).1.isOk then (auth x s).2 else stAfter auth xs (auth x s).2
+
+/-- the world states at the start of each call of a history -/
+def statesOf {σ ε ρ S : Type} (auth : σ → S → Out ε ρ × S) : List (List σ) → S → List S
+  | [], _ => []
+  | srcs :: rest, s => s :: statesOf auth rest (stAfter auth srcs s)
+
 end PV.AuthStrategy
